@@ -362,7 +362,7 @@ pub fn run(ctx: &Ctx) -> Outcome {
                 let mut reused = [None; 4];
                 for (k, t) in trs.iter().enumerate() {
                     let tt = t.unix_leap_time();
-                    if tt < 0 || tt > hi || (k + fi) % mk_every != 0 {
+                    if tt < 0 || tt > hi || ((k + fi) % mk_every != 0 && k + 1 != trs.len()) {
                         continue;
                     }
                     let off_before = if k == 0 { zr.local_time_types()[0].ut_offset() } else { zr.local_time_types()[trs[k - 1].local_time_type_index()].ut_offset() };
